@@ -211,20 +211,15 @@ func Matrix(full bool) []*Schema {
 		st := corpusSchema("mxtag")
 		ch := Msg{Name: "C", Fields: []Field{{Num: 536870911, Kind: Int32, Shape: Singular}}}
 		t := Msg{Name: "T"}
-		for i, num := range TagWidthNums {
-			base := num
-			if base > 536870911-8 {
-				base = 536870911 - 8 - i
-			}
-			_ = base
-		}
 		shapes := 0
+		used := map[int]bool{}
 		for _, num := range TagWidthNums {
 			for j := 0; j < 6 && num+j <= 536870911; j++ {
 				f := Field{Num: num + j}
-				if j > 0 && containsInt(TagWidthNums, num+j) {
+				if used[num+j] || (j > 0 && containsInt(TagWidthNums, num+j)) {
 					continue
 				}
+				used[num+j] = true
 				switch (shapes) % 6 {
 				case 0:
 					f.Kind, f.Shape = Sint32, Singular
@@ -485,10 +480,29 @@ func Nested() *descriptorpb.FileDescriptorProto {
 		EnumType:   []*descriptorpb.EnumDescriptorProto{enum("Color", "COLOR_RED", "COLOR_GREEN", "COLOR_BLUE")}}
 	// Outer_Middle (top-level) next to Outer.Middle (nested): Go name collision candidates
 	flat := &descriptorpb.DescriptorProto{Name: proto.String("Outer_Flat"), Field: []*descriptorpb.FieldDescriptorProto{f("o", 1, opt, msgT, ".vc.nest.Other")}}
+	// Resource: nested messages declared before AND after a map field of their parent (the synthetic entry
+	// type sits between them in nested_type), with field / oneof names that collide with
+	// protoreflect.Message methods at both places and one level further down
+	reservedMsg := func(name string, nested ...*descriptorpb.DescriptorProto) *descriptorpb.DescriptorProto {
+		d := &descriptorpb.DescriptorProto{Name: proto.String(name),
+			Field: []*descriptorpb.FieldDescriptorProto{f("type", 1, opt, str, ""), f("get", 2, opt, i32, ""), f("new_field", 3, rep, str, ""),
+				f("range", 4, opt, str, ""), f("is_valid", 5, opt, i32, "")},
+			OneofDecl:  []*descriptorpb.OneofDescriptorProto{{Name: proto.String("set")}},
+			NestedType: nested}
+		d.Field[3].OneofIndex = proto.Int32(0)
+		d.Field[4].OneofIndex = proto.Int32(0)
+		return d
+	}
+	labels := &descriptorpb.DescriptorProto{Name: proto.String("LabelsEntry"), Options: &descriptorpb.MessageOptions{MapEntry: proto.Bool(true)},
+		Field: []*descriptorpb.FieldDescriptorProto{f("key", 1, opt, str, ""), f("value", 2, opt, str, "")}}
+	resource := &descriptorpb.DescriptorProto{Name: proto.String("Resource"),
+		Field: []*descriptorpb.FieldDescriptorProto{f("before", 1, opt, msgT, ".vc.nest.Resource.Before"), f("labels", 2, rep, msgT, ".vc.nest.Resource.LabelsEntry"),
+			f("spec", 3, opt, msgT, ".vc.nest.Resource.Spec"), f("status", 4, opt, msgT, ".vc.nest.Resource.Spec.Status")},
+		NestedType: []*descriptorpb.DescriptorProto{reservedMsg("Before"), labels, reservedMsg("Spec", reservedMsg("Status"))}}
 	return &descriptorpb.FileDescriptorProto{
 		Name: proto.String("verifcorpus/nest/nest.proto"), Package: proto.String("vc.nest"), Syntax: proto.String("proto3"),
 		Options:     &descriptorpb.FileOptions{GoPackage: proto.String("github.com/cosmos/cosmos-proto/internal/verifcorpus/nest")},
-		MessageType: []*descriptorpb.DescriptorProto{outer, other, flat},
+		MessageType: []*descriptorpb.DescriptorProto{outer, other, flat, resource},
 		EnumType:    []*descriptorpb.EnumDescriptorProto{enum("Top", "TOP_ZERO", "TOP_ONE")},
 	}
 }
@@ -537,4 +551,11 @@ func SamePkg() []*Schema {
 		{Num: 5, Kind: Int64, Shape: Oneof, Group: 0},
 	}}}, []string{"verifcorpus/sp/spa.proto", "verifcorpus/sp/spb.proto", "verifcorpus/sp/spc.proto", "verifcorpus/sp/spd.proto"}))
 	return out
+}
+
+// Shuffle: Fisher-Yates with the harness PRNG.
+func (r *Rand) Shuffle(n int, swap func(i, j int)) {
+	for i := n - 1; i > 0; i-- {
+		swap(i, r.Intn(i+1))
+	}
 }
